@@ -189,6 +189,12 @@ def check(model, rep, tier):
                   fn.name, {'body': names}, line=s.call.lineno,
                   witness='any variable assigned in the block and read after it')
   rep.unit('generated functions holding user statements', n_fn)
+  # ... and a user *expression* placed in a generated function (the loop test)
+  # binds its assignment-expression targets there unless they are declared
+  from sa import rules_dup
+  rep.rule('SCOPE-MOVE', 'names bound by a user expression that is evaluated in a '
+           'generated function are declared state of that function', floor=1)
+  rules_dup.scope_move(model, rep, sites)
   # declarations built from the same state list in each visitor
   for vn in ('visit_If', 'visit_While', 'visit_For'):
     h = cls.methods[vn]
